@@ -235,6 +235,30 @@ func ruleLeaveCallers(r *Run) {
 		return
 	}
 	leave := m.Leave[0].Obj
+	// the leave function may test membership itself, before it changes anything: then its callers need
+	// not (a not-joined call is a no-op; E1 checks that the not-joined exit changes nothing)
+	selfGuarded := true
+	for _, path := range r.Paths(m.Leave[0]) {
+		path := path
+		r.at(&path)
+		tested := false
+		for i, ev := range path.Events {
+			if ev.Kind == EvGuard {
+				g := r.Classify(&path, i)
+				if g.Subject == "joined:currentParticipant" || (g.Subject == "joined:currentSession" && g.Outcome == "no") {
+					tested = true
+					break
+				}
+			}
+			if ev.Kind == EvCall || ev.Kind == EvDelete || ev.Kind == EvChanOp || ev.Kind == EvGo {
+				if f, ok := ev.Callee.(*types.Func); ok && r.P.getterField(f) != "" {
+					continue
+				}
+				break // something happens before membership is tested
+			}
+		}
+		selfGuarded = selfGuarded && tested
+	}
 	n := 0
 	for _, fn := range r.P.All {
 		calls := false
@@ -271,7 +295,7 @@ func ruleLeaveCallers(r *Run) {
 					}
 				}
 			}
-			r.CheckT("E2", "guard["+fn.Name+"]", guarded, path.Events[i].Pos, path, "leaving is attempted only for a connection that has a participant")
+			r.CheckT("E2", "guard["+fn.Name+"]", guarded || selfGuarded, path.Events[i].Pos, path, "leaving is attempted only for a connection that has a participant (tested by the caller, or by the leave function before it does anything)")
 		}
 	}
 	// a join that proceeds leaves the session the connection is in, before it is added to the new one
@@ -300,9 +324,10 @@ func ruleLeaveCallers(r *Run) {
 				r.CheckT("E2", jf.Name+":switch-leaves-first", iLeave >= 0 && iLeave < iAdd, path.Events[iAdd].Pos, &path,
 					"a connection that is in a session and joins another one leaves the old session (entities, subscriptions, membership) before it becomes a member of the new one")
 			case "no":
-				r.CheckT("E2", jf.Name+":fresh-join", iLeave < 0, path.Events[iAdd].Pos, &path, "a connection that is in no session joins without leaving anything")
+				r.CheckT("E2", jf.Name+":fresh-join", iLeave < 0 || selfGuarded, path.Events[iAdd].Pos, &path, "a connection that is in no session joins without leaving anything")
 			default:
-				r.CheckT("E2", jf.Name+":join-tests-membership", false, path.Events[iAdd].Pos, &path, "a join becomes a member of the new session without testing whether the connection is still in another one")
+				// no test in the join handler: the leave function is called unconditionally and decides itself
+				r.CheckT("E2", jf.Name+":join-tests-membership", selfGuarded && iLeave >= 0 && iLeave < iAdd, path.Events[iAdd].Pos, &path, "a join becomes a member of the new session without testing (itself or in the leave function it calls first) whether the connection is still in another one")
 			}
 		}
 		r.Floor("E2", "join paths that add the participant", nJoin, 2)
